@@ -1,75 +1,35 @@
-import Netpoll.Conn.Read
+import Netpoll.Conn.ReadInvLemmas
 /-
 C07 – a blocked reader wakes on data, close or timeout – and only then.
-Invariant proof over `Netpoll.Conn.Read` for every interleaving of one reader (any sequence of timed and
-untimed calls), any number of poller deliveries, closers and timer firings.
+Invariant proof over `Netpoll.Conn.Read` for every interleaving of one reader (any sequence of untimed calls, timed
+calls and calls with an already expired deadline), any number of poller deliveries, closers (peer hang-up, user Close
+winning or losing closeBy, the finalizer's buffer reset) and timer firings.
+The invariant `Good` is in Netpoll/Conn/ReadInv.lean, its preservation lemmas (generated, one per action) in
+Netpoll/Conn/ReadInvLemmas*.lean.  The model is tied to the code by `npdriver read` (trace conformance of the real
+code under the controlled scheduler) and Netpoll.Tie.ReadFlush (sync-operation lists).
 -/
 namespace Netpoll.Props.C07
 open Netpoll.Conn.Read
 
-/-- the reader is inside a timed call after the timer has been armed -/
-def timedArmed : RPc → Bool
-  | .chkLen _ true | .chkClosing _ true | .wait _ true | .ret _ _ _ => true
-  | _ => false
-
-/-- the `n` of the call in progress, while `waitReadSize` is published -/
-def published : RPc → Option Nat
-  | .arm n | .chkLen n _ | .chkClosing n _ | .wait n _ | .dblChk n | .ret n _ _ | .unstore n _ _ => some n
-  | _ => none
-
-def Good (s : S) : Prop :=
-  -- timer discipline
-  (¬ (s.timerRunning = true ∧ s.tick = true)) ∧
-  (timedArmed s.r = true → (s.timerRunning = true ∨ s.tick = true)) ∧
-  (timedArmed s.r = false → s.timerRunning = false ∧ s.tick = false) ∧
-  -- waitReadSize is n exactly while a slow-path call is in progress
-  (∀ n, published s.r = some n → s.waitSize = n ∧ n > 0) ∧
-  (published s.r = none → s.waitSize = 0) ∧
-  (∀ n t, (s.r = .fast n t ∨ s.r = .store n t) → n > 0) ∧
-  -- the poller's view: the length it saw is never below the current length (only the idle reader consumes)
-  ((s.p = .loadWait ∨ s.p = .send) → s.lenSeen ≥ s.inLen) ∧
-  -- closing / tokens
-  (s.closing ≤ 2) ∧
-  (s.c = .sendClosed → s.closing = 1) ∧ (s.c = .sendEOF → s.closing = 2) ∧
-  (s.slot = some .errClosed → s.closing = 1) ∧ (s.slot = some .errEOF → s.closing = 2) ∧
-  (s.closing = 2 → s.p = .idle) ∧
-  -- NO LOST WAKE-UP: from the moment the reader has seen "not enough" until it parks, and while it is parked,
-  -- enough data means a delivery is still in progress (it will trigger) or the slot holds a token
-  (∀ n t, (s.r = .chkClosing n t ∨ s.r = .wait n t) → s.slot = none → s.inLen ≥ n → s.p ≠ .idle) ∧
-  (∀ n t, s.r = .wait n t → s.slot = none → s.closing ≠ 0 → s.c ≠ .none) ∧
-  -- every completed call has the right class
-  (∀ x ∈ s.results, (x.2.1 = .ok → x.2.2.1 ≥ x.1) ∧ (x.2.1 = .timeout → x.2.2.1 < x.1) ∧
-      (x.2.1 = .errEOF → x.2.2.2 = 2) ∧ (x.2.1 = .errClosed → x.2.2.2 = 1)) ∧
-  -- pending results
-  (∀ n res seen, (s.r = .ret n res seen ∨ s.r = .unstore n res seen) →
-      (res = .ok → seen ≥ n) ∧ (res = .timeout → seen < n) ∧ (res = .errEOF → s.closing = 2) ∧ (res = .errClosed → s.closing = 1))
-
-theorem good_init : Good init := by
-  simp [Good, init, timedArmed, published]
-
-theorem good_step (s s' : S) (a : Act) (h : Good s) (hs : step s a = some s') : Good s' := by
-  obtain ⟨inLen, closing, waitSize, slot, timerRunning, tick, r, p, c, lenSeen, results⟩ := s
-  cases a <;> simp only [step, trySend] at hs <;> (repeat' split at hs) <;> (try cases hs) <;>
-    (try (simp only [Good, timedArmed, published] at *; grind))
-
-theorem good_run (acts : List Act) (s0 s : S) (h0 : Good s0) (hrun : run s0 acts = some s) : Good s := by
-  induction acts generalizing s0 with
-  | nil => simp [run] at hrun; subst hrun; exact h0
-  | cons a rest ih =>
-    simp only [run] at hrun
-    split at hrun
-    · simp at hrun
-    · rename_i s1 h1
-      exact ih s1 (good_step s0 s1 a h0 h1) hrun
-
-/-- **C07_success / C07_no_spurious_timeout / C07_error_class.** Every completed call, in every
-interleaving: success ⇒ at least n bytes were buffered when it decided; timeout ⇒ fewer than n were
-buffered at the double-check (so it never times out when the bytes were already there); ErrEOF only
-after a peer close, ErrConnClosed only after a local close. -/
+/-- **C07_success / C07_no_spurious_timeout / C07_error_class.** Every completed call
+`(n, result, Len() at the decision, peerClosed, userClosed at return)`, in every interleaving: success ⇒ at least n
+bytes were buffered when it decided; timeout ⇒ fewer than n were buffered at the double-check (for an expired
+deadline: at the entry check), so it never times out when the bytes were already there; ErrEOF only after the peer's
+hang-up won `closeBy(poller)`, ErrConnClosed only after a user Close.
+(The class is stated with the ghosts, not with the value of `closing` at return: a user Close that loses closeBy
+stores closing := user afterwards, so the word does not identify who closed first.) -/
 theorem C07_results (acts : List Act) (s : S) (hr : run init acts = some s) :
     ∀ x ∈ s.results, (x.2.1 = .ok → x.2.2.1 ≥ x.1) ∧ (x.2.1 = .timeout → x.2.2.1 < x.1) ∧
-      (x.2.1 = .errEOF → x.2.2.2 = 2) ∧ (x.2.1 = .errClosed → x.2.2.2 = 1) :=
-  (good_run acts init s good_init hr).2.2.2.2.2.2.2.2.2.2.2.2.2.2.2.1
+      (x.2.1 = .errEOF → x.2.2.2.1 = true) ∧ (x.2.1 = .errClosed → x.2.2.2.2 = true) :=
+  (good_run acts init s good_init hr).res
+
+/-- the ghosts mean what they say: `peerClosed` only after a successful `closePeer`, `userClosed` only after
+`closeUser` / `forceUser`; both imply `closing ≠ 0` from then on. -/
+theorem C07_ghosts (acts : List Act) (s : S) (hr : run init acts = some s) :
+    (s.peerClosed = true → s.closing ≠ 0) ∧ (s.userClosed = true → s.closing ≠ 0) ∧
+    (s.closing = 2 → s.peerClosed = true) ∧ (s.closing = 1 → s.userClosed = true) := by
+  have hg := good_run acts init s good_init hr
+  exact ⟨fun h => (hg.cl7 h).2, hg.cl8, hg.cl5, hg.cl6⟩
 
 /-- **C07_no_lost_wakeup.** Whenever the reader is parked at the wait point and a reason to wake exists
 (enough data, the connection closed, or – for a timed call – the timer fired), a wake-up is already in
@@ -81,19 +41,18 @@ theorem C07_no_lost_wakeup (acts : List Act) (s : S) (hr : run init acts = some 
     (s.closing ≠ 0 → s.slot ≠ none ∨ s.c ≠ .none) ∧
     (t = true → s.timerRunning = true ∨ s.tick = true) := by
   have hg := good_run acts init s good_init hr
-  obtain ⟨_, h2, _, _, _, _, _, _, _, _, _, _, _, hlw1, hlw2, _⟩ := hg
   refine ⟨?_, ?_, ?_⟩
   · intro hn
     by_cases hs : s.slot = none
-    · exact Or.inr (hlw1 n t (Or.inr hw) hs hn)
+    · exact Or.inr (hg.lw1 n t (Or.inr hw) hs hn)
     · exact Or.inl hs
   · intro hc
     by_cases hs : s.slot = none
-    · exact Or.inr (hlw2 n t hw hs hc)
+    · exact Or.inr (hg.lw2 n t hw hs hc)
     · exact Or.inl hs
   · intro ht
     subst ht
-    exact h2 (by simp [hw, timedArmed])
+    exact hg.tmr2 (by simp [hw, timedArmed])
 
 /-- **C07_timer_clean.** Between calls the timer is stopped, its channel is empty and `waitReadSize` is 0:
 a call (successful, failed or timed out) leaves later reads and their timers unaffected; and the clean-up
@@ -102,22 +61,34 @@ theorem C07_timer_clean (acts : List Act) (s : S) (hr : run init acts = some s) 
     (s.r = .idle → s.timerRunning = false ∧ s.tick = false ∧ s.waitSize = 0) ∧
     (∀ n res seen, s.r = .ret n res seen → s.timerRunning = true ∨ s.tick = true) := by
   have hg := good_run acts init s good_init hr
-  obtain ⟨_, h2, h3, _, h5, _⟩ := hg
   constructor
   · intro hi
-    have := h3 (by simp [hi, timedArmed])
-    exact ⟨this.1, this.2, h5 (by simp [hi, published])⟩
+    have := hg.tmr3 (by simp [hi, timedArmed])
+    exact ⟨this.1, this.2, hg.pub2 (by simp [hi, published])⟩
   · intro n res seen hret
-    exact h2 (by simp [hret, timedArmed])
+    exact hg.tmr2 (by simp [hret, timedArmed])
+
+/-- **C07_timeout_pure.** A call changes the buffered length only through `consume`, which the model enables only
+after a successful call: a timed-out (or failed) call consumes nothing. -/
+theorem C07_timeout_pure (s s' : S) (k : Nat) (h : step s (.consume k) = some s') :
+    (s.results.head?.map (·.2.1)) = some .ok ∧ s.r = .idle := by
+  simp only [step] at h
+  split at h
+  · rename_i hc; exact ⟨hc.2.2, hc.1⟩
+  · simp at h
 
 /-- non-vacuity: data arriving in two chunks around the n-th byte wakes an untimed reader; a timed reader times out
-without data and the next call starts clean -/
+without data and the next call starts clean; an expired deadline times out at once; ErrEOF with `closing = user` -/
 example : ((run init [.call 3 false, .rstep, .rstep, .rstep, .rstep, .deliver 2, .pstep, .pstep, .deliver 1, .pstep, .pstep, .pstep,
-    .recvSlot, .rstep, .rstep]).map (fun s => (s.r, s.results))) = some (.idle, [(3, .ok, 3, 0)]) := by decide
+    .recvSlot, .rstep, .rstep]).map (fun s => (s.r, s.results))) = some (.idle, [(3, .ok, 3, false, false)]) := by rfl
 
 example : ((run init [.call 5 true, .rstep, .rstep, .rstep, .rstep, .rstep, .fire, .recvTick, .rstep, .rstep]).map
-    (fun s => (s.r, s.results))) = some (.idle, [(5, .timeout, 0, 0)]) := by decide
+    (fun s => (s.r, s.results))) = some (.idle, [(5, .timeout, 0, false, false)]) := by rfl
 example : ((run init [.call 5 true, .rstep, .rstep, .rstep, .rstep, .rstep, .fire, .recvTick, .rstep, .rstep]).map
-    (fun s => (s.timerRunning, s.tick, s.waitSize))) = some (false, false, 0) := by decide
+    (fun s => (s.timerRunning, s.tick, s.waitSize))) = some (false, false, 0) := by rfl
+example : ((run init [.callX 5, .rstep, .rstep, .rstep]).map (fun s => (s.r, s.results, s.waitSize))) =
+    some (.idle, [(5, .timeout, 0, false, false)], 0) := by rfl
+example : ((run init [.call 2 false, .rstep, .rstep, .rstep, .rstep, .closePeer, .cstep, .forceUser, .recvSlot, .rstep]).map
+    (fun s => (s.results, s.closing))) = some ([(2, .errEOF, 0, true, true)], 1) := by rfl
 
 end Netpoll.Props.C07
